@@ -74,6 +74,9 @@ class ExceptIf(ConclusionSelector):
             for conc in self.left._conclusion_.union(self.right._conclusion_):
                 required_vars.update(conc._unique_variables_)
         elif child is self.right:
+            # whether the right side yields decides which conclusion applies to the current left binding, so its
+            # outputs for different left bindings are never duplicates of each other.
+            required_vars.update(self.left._unique_variables_)
             if when_true:
                 for conc in self.right._conclusion_:
                     required_vars.update(conc._unique_variables_)
